@@ -211,7 +211,8 @@ pub fn run_resp(case: &RespCase) -> RespOut {
     let sent = catch_unwind(AssertUnwindSafe(|| {
         attohttpc::RequestBuilder::new(method_of(&case.method), "http://verif.test/x")
             .max_headers(case.max_headers)
-            .allow_compression(false)
+            // only announces Accept-Encoding; the response side must not depend on it
+            .allow_compression(case.segs.len() % 2 == 0)
             .follow_redirects(false)
             .send()
     }));
